@@ -145,3 +145,40 @@ for _legacy in (False, True):
                  ("C16.units_read_from_the_table_are_kept", "PROG.unit_cost.units == '$/person/year' and PROG.coverage.units == 'people'"),
                  ("C16.the_years_of_the_table_are_collected", "times == {2020.0}")],
         defined_props=["C16"])
+
+
+# ---- the writer of the same sheet, one program (body of the loop over programs in ProgramSet._write_spending): the table written for a program holds its
+# five series under the row names the reader expects, with the `Assumption` heading and all three optional columns switched on
+def _env_spend_write(it):
+    from pyvc.interp import PyObjV
+    from pyvc.core import Opaque
+    from pyvc import source
+
+    pm, um = source.load("programs"), source.load("utils")
+    ts = lambda tag: PyObjV("TimeSeries", um, {"units": "u", "TAG": tag})
+    prog = PyObjV("Program", pm, {"name": "prog", "spend_data": ts("spend"), "unit_cost": ts("unit cost"), "capacity_constraint": ts("cc"), "saturation": ts("sat"), "coverage": ts("cov")})
+    self = PyObjV("ProgramSet", pm, {"name": "ps", "programs": {"prog": prog}, "tvec": Opaque("years"), "currency": "$", "_formats": Opaque("formats"), "_references": Opaque("references")})
+    return {"self": self, "prog": prog, "sheet": Opaque("sheet"), "next_row": 0, "widths": {}, "WRITTEN": [], "PROG": prog}
+
+
+def _ghost_tdve(it, name, tvec=None, **k):
+    from pyvc.interp import PyObjV
+    from pyvc import source
+
+    return PyObjV("TimeDependentValuesEntry", source.load("excel"), {"name": name, "tvec": tvec, "ts": {}, "assumption_heading": "Constant", "write_assumption": None, "write_units": None, "write_uncertainty": None, "allowed_units": None})
+
+
+def _ghost_tdve_write(it, sheet, row, *a, **k):
+    it.live_env["WRITTEN"].append(it.stub_receiver)
+    return row + 10
+
+
+CONTRACTS["programs:ProgramSet._write_spending#one_program"] = dict(
+    schema=schema, fragment={"iter": "self.programs.values()", "body_contains": "Annual spend"}, make_env=_env_spend_write,
+    call_stubs={"TimeDependentValuesEntry": _ghost_tdve, "tdve.write": _ghost_tdve_write},
+    ensures=[("C16.the_five_series_of_the_program_are_written_under_the_row_names_the_reader_expects",
+              "len(WRITTEN) == 1 and WRITTEN[0].name == 'prog' and WRITTEN[0].ts['Annual spend'] is PROG.spend_data and WRITTEN[0].ts['Unit cost'] is PROG.unit_cost and WRITTEN[0].ts['Capacity constraint'] is PROG.capacity_constraint "
+              "and WRITTEN[0].ts['Saturation'] is PROG.saturation and WRITTEN[0].ts['Coverage'] is PROG.coverage and len(WRITTEN[0].ts) == 5"),
+             ("C16.assumption_units_and_uncertainty_columns_are_always_written", "WRITTEN[0].assumption_heading == 'Assumption' and WRITTEN[0].write_assumption == True and WRITTEN[0].write_units == True and WRITTEN[0].write_uncertainty == True"),
+             ("C16.the_next_table_starts_where_this_one_ended", "next_row == 10")],
+    defined_props=["C16"])
